@@ -163,11 +163,12 @@ def bitsToNat : List Nat → Nat
   | [] => 0
   | b :: bs => (bitsToNat bs <<< 1) ^^^ b
 
-/-- ≙ runtime.py:4358-4362 `to_bits` for characteristic 2: `rbits` = values (0/1) of the l random bits;
-returns (opened c as int, the l bits as field elements) -/
-def toBitsBin (a : α) (rbits : List Nat) : Nat × List α :=
-  let c := F.toNat (F.add a (F.ofNat (bitsToNat rbits)))       -- :4360-4361
-  (c, (List.range rbits.length).map (fun i => F.add (F.ofNat (rbits.getD i 0)) (F.ofNat ((c >>> i) % 2))))  -- :4362
+/-- ≙ `to_bits` for characteristic 2: `rbits` = values (0/1) of the random bits, one per coefficient of the field
+(`max(l, ext_deg)` of them: ALL bits of `a` are masked in the opened `c`, also when only `l` bits are extracted);
+returns (opened c as int, the first `l` bits as field elements; `l` defaults to all) -/
+def toBitsBin (a : α) (rbits : List Nat) (l : Nat := rbits.length) : Nat × List α :=
+  let c := F.toNat (F.add a (F.ofNat (bitsToNat rbits)))
+  (c, (List.range l).map (fun i => F.add (F.ofNat (rbits.getD i 0)) (F.ofNat ((c >>> i) % 2))))
 
 /-- ≙ runtime.py:4459-4473 `from_bits` in characteristic 2 (polynomial values: `<<` and `+` on GF(2)[x]) -/
 def fromBitsBin (x : List α) : α :=
